@@ -116,6 +116,8 @@ func c04(c *Ctx) {
 	c03R8(c)
 	// after a restart the pool knows a pod's address under the key every request uses (shared rule)
 	c05R4(c)
+	// the record the guards compare with is what was committed: memory follows the disk (shared rule)
+	c05R3(c)
 }
 
 // pendingField is networkService.pendingPods
@@ -556,6 +558,9 @@ func c04R4(c *Ctx) {
 		c.Check(covered, "C04.R4", key, p.Pos(r), fn.Key(), "must-pass: eniMgr.Allocate → eniMgr.Release(resp) → failure return, or a deferred roll-back bound to the returned error", why)
 	}
 	c.Floor("C04.R4", "failure returns of AllocIP after the allocation", 3, n)
+	for _, du := range undos {
+		successKeepsResult(c, "C04.R4", fn, du, "release")
+	}
 }
 
 // lastFallible names the call whose error leads to return r (for stable obligation keys).
